@@ -398,7 +398,7 @@ def gen_rcase(r, k):
     vars_ = []
     scalar = []
     for v in range(nv):
-        kind = r.choice(["distance", "distance2c", "angle", "dihedral", "gyration", "coordnum", "rmsd", "dist3c", "distancevec", "distz", "extended"])
+        kind = r.choice(["distance", "distance2c", "angle", "dihedral", "gyration", "coordnum", "rmsd", "dist3c", "distancevec", "distz", "extended", "extended2c"])
         a = r.sample(atoms, 8)
         L = ["colvar {", "  name v%d" % v, "  width 0.5"]
         is_scalar = True
@@ -431,7 +431,12 @@ def gen_rcase(r, k):
         elif kind == "extended":
             L[2:2] = ["  extendedLagrangian on", "  extendedFluctuation 0.25", "  extendedTimeConstant 20.0"]
             L += ["  distance {", "    group1 { %s }" % grp(a[:1]), "    group2 { %s }" % grp(a[1:2]), "  }"]
-        if r.random() < 0.2 and kind not in ("extended",):
+        elif kind == "extended2c":
+            ncomp = 2
+            L[2:2] = ["  extendedLagrangian on", "  extendedFluctuation 0.25", "  extendedTimeConstant 20.0", "  outputVelocity on"]
+            for i in range(2):
+                L += ["  distance {", "    name d%d" % i, "    group1 { %s }" % grp(a[2 * i:2 * i + 1]), "    group2 { %s }" % grp(a[2 * i + 1:2 * i + 2]), "  }"]
+        if r.random() < 0.2 and kind not in ("extended", "extended2c"):
             L.insert(2, "  timeStepFactor 2")
             tsf = 2
         else:
@@ -441,7 +446,7 @@ def gen_rcase(r, k):
             L.insert(3, "  upperBoundary 16.0")
         L += ["}"]
         vars_.append({"kind": kind, "lines": L, "scalar": is_scalar, "ncomp": ncomp, "tsf": tsf})
-        if is_scalar and kind != "dihedral" and tsf == 1 and kind != "extended":
+        if is_scalar and kind != "dihedral" and tsf == 1 and kind not in ("extended", "extended2c"):
             scalar.append(v)
     biases = []
     nb = r.randint(1, 4)
@@ -726,6 +731,10 @@ def load_corpus():
 def setup():
     V.extract_model("C12", EXTRACT, DRIVER, [])
     V.build_prog("c12sim", PROGS["c12sim"])
+    try:
+        V.build_prog("c12sim_tsan", PROGS["c12sim"], variant="tsan")
+    except V.InfraError:
+        pass
 
 
 def check(run):
@@ -736,8 +745,8 @@ def check(run):
                        "scripted-force task (before or after the biases), cvcflags commands between steps (a disabled component before an enabled one "
                        "in ~1/3 of them, wrong lengths, all-off as an error step), 3-7 steps; every step runs under a fresh random permutation of the "
                        "items, 1-8 threads and a random or round-robin thread assignment (std::thread executor), or under OpenMP; each scenario also "
-                       "runs under smp serial. R cases (implementation only): 2-4 variables of 11 kinds (distance, 2-3 component combinations, angle, "
-                       "dihedral, gyration, coordNum, rmsd, distanceVec, distanceZ, extended Lagrangian), 1-4 biases of 7 kinds (harmonic incl. moving, "
+                       "runs under smp serial. R cases (implementation only): 2-4 variables of 12 kinds (distance, 2-3 component combinations, angle, "
+                       "dihedral, gyration, coordNum, rmsd, distanceVec, distanceZ, extended Lagrangian with 1-2 components), 1-4 biases of 7 kinds (harmonic incl. moving, "
                        "harmonicWalls, linear, metadynamics with/without grids, histogram, abf), scripted forces, cvcflags; outputs, state and trajectory "
                        "files compared byte for byte with the serial run. distinct = distinct configuration; non-trivial = >=2 variables or a cvcflags "
                        "command, and a bias (T); >=2 biases or a multi-component variable (R)")
@@ -762,7 +771,10 @@ def check(run):
     rich_part(run, r, sim, rc, d)
     depth_part(run, sim, d)
     run.cov["correspondence"].update({"t_scenarios": len(tc), "r_scenarios": len(rc)})
-    if not quick:
+    # ThreadSanitizer with the std::thread executor: a few scenarios in the quick tier, more in the thorough tier
+    if quick:
+        tsan_part(run, r, tc[:10], rc[:8], d)
+    else:
         tsan_part(run, r, tc[:120], rc[:150], d)
 
 
